@@ -2,7 +2,9 @@
 # usage: tools/mutant.sh <dir with patch.diff + demo> [tier] <check ids...>
 # 1. confirms in a scratch worktree that the change compiles, passes the existing suite,
 #    and that the demonstration fails with it and passes without it;
-# 2. applies the change to /repo, runs the given checks, and restores /repo.
+# 2. runs the given checks against that scratch worktree (VERIF_REPO), leaving /repo and the
+#    committed evidence untouched. (Final confirmation of kept changes is done once more with
+#    `git -C /repo apply` as tools/confirm_seeded.sh does.)
 set -u
 export GOFLAGS=-mod=mod GOPROXY=off GOSUMDB=off GOTOOLCHAIN=local
 D=$(realpath "$1"); shift
@@ -10,7 +12,8 @@ TIER=quick
 if [ "${1:-}" = quick ] || [ "${1:-}" = thorough ]; then TIER=$1; shift; fi
 W=/tmp/mutcheck-$$
 git -C /repo worktree add -q --detach "$W" HEAD || exit 2
-trap 'git -C /repo worktree remove --force "$W" >/dev/null 2>&1; git -C /repo checkout -q -- . ; git -C /repo clean -fdq' EXIT
+OUT=/tmp/mutout-$$; mkdir -p $OUT
+trap 'git -C /repo worktree remove --force "$W" >/dev/null 2>&1; rm -rf $OUT' EXIT
 demo_run() { # runs the demonstration in $W; echoes PASS/FAIL
   if ls "$D"/*_test.go >/dev/null 2>&1; then
     cp "$D"/*_test.go "$W"/ ; (cd "$W" && go test -tags "${DEMOTAGS:-}" -vet=off -count=1 -run "${DEMORUN:-Demo|Seeded|Mutant|Mut}" . >/tmp/mutdemo.$$ 2>&1); rc=$?
@@ -28,12 +31,9 @@ if ! git -C "$W" apply "$D/patch.diff"; then echo "PATCH DOES NOT APPLY"; exit 2
 (cd "$W" && go test -vet=off -count=1 ./... >/tmp/mutsuite.$$ 2>&1) && echo "== changed tree: existing suite PASS" || { echo "== changed tree: existing suite FAIL"; tail -20 /tmp/mutsuite.$$; }
 echo "== changed tree: demo -> $(demo_run)"; tail -5 /tmp/mutdemo.$$
 rm -f /tmp/mutdemo.$$ /tmp/mutsuite.$$
-git -C /repo apply "$D/patch.diff" || exit 2
 for c in "$@"; do
-  out=$(/verif/bin/vcheck run $c --tier $TIER 2>&1); rc=$?
+  out=$(VERIF_REPO=$W VERIF_OUT=$OUT /verif/bin/vcheck run $c --tier $TIER 2>&1); rc=$?
   echo "== check $c ($TIER): exit=$rc  $(echo "$out" | grep -c '^VIOLATION') VIOLATION lines"
   echo "$out" | grep -A1 '^VIOLATION' | head -4
   [ $rc = 2 ] && echo "$out" | tail -5
 done
-git -C /repo checkout -q -- . ; git -C /repo clean -fdq
-git -C /repo status --short
